@@ -1074,7 +1074,8 @@ class Node(object):
         except: pass
 #       node.nodeValue = self.nodeValue
 #       node.nodeType = self.nodeType
-        node.parentNode = self.parentNode
+        # The copy is not in anybody's child list: it has no parent
+        node.parentNode = None
         node.ownerDocument = self.ownerDocument
         if deep:
             aliased = False
@@ -1723,7 +1724,7 @@ class CharacterData(str, Node):
     def cloneNode(self, deep=True):
         o = type(self)(self)
         o.ownerDocument = self.ownerDocument
-        o.parentNode = self.parentNode
+        o.parentNode = None
         return o
 
     @property
